@@ -8,6 +8,25 @@ CHECKS = {
              text="TLC enumerates a bounded universe of state points, checks Injective/AsciiOnly/KeysSorted on the specification and exports (value, canonical text); the harness hashes the text and compares with the real ids for every key order / container spelling / file round trip / fresh interpreter; seeded deep values go the other way (code -> spec). Bounded-exhaustive for one-key state points over the depth<=1 alphabet, sampled beyond.",
              note="trusted: hashlib.md5, float repr / big-int text (atoms in the spec), TLC", ref="5 C01"),
 }
+WS_NOTE = "trusted: TLC; the raw projection of project directories (os.walk/json/gzip) in harness/wsengine.py; real ids computed by the harness's own canonical JSON + md5 (validated against the spec by C01); bounded universe (2 keys x 2 values, <=3 handles, <=2 projects) beyond which coverage is by TLC -simulate sampling"
+WS_TECH = "explicit TLA+ state machine (spec/workspace/Workspace.tla) model-checked by TLC; every edge of the dumped state graph and TLC-simulated long behaviours replayed into real signac with the projected disk state, cache file, session cache, handle ids and results compared after each step; the property's own post-conditions judged on the real tree"
+CHECKS.update({
+ "C02": dict(technique=WS_TECH + "; id-prefix resolution as a TLC generator spec (Prefix.tla) over real colliding ids",
+             text="TLC checks Lazy / PersistExact / InitIdempotent on the conformant workspace model (all histories of open/init/read/restart/remove up to the depth bound, populated starts with and without cache file) and every edge is executed on the real library: open_job leaves the tree byte-identical and is immune to later mutation of the caller's mapping, init persists the type-exact state point and never rewrites a valid file (inode/mtime), a fresh session finds the job. Every prefix (and perturbed prefix) of 12-24 real ids colliding at lengths 1..5 is resolved by TLC and by fresh sessions (KeyError vs LookupError exact).",
+             note=WS_NOTE, ref="5 C02"),
+ "C03": dict(technique=WS_TECH,
+             text="The plain model of the property is the abstract state of Workspace.tla (about 25 public operations incl. failing branches, two projects, shallow copies, strays, cache). TLC explores all histories to the depth bound plus long simulated ones; each transition is executed on real signac in a fresh sandbox and the disk state must equal the model (divergence = violation); on every real state check() passes, directory name = hash of state point file, len/iteration/membership agree, strays are ignored and no ~/temp files remain. Known deviations of the code are modelled (ghost variable `tainted`) and reported as KNOWN-FINDING.",
+             note=WS_NOTE + "; HDF5 stores not modelled; deepcopy/pickle handles are covered by scripted scenarios in C04, not by the state machine", ref="5 C03"),
+ "C04": dict(technique=WS_TECH + "; scripted deepcopy/pickle and value-shape assignment scenarios",
+             text="Action properties NoClobber, RekeyCarries, UpdateNoOverwrite, MoveKeepsId, CloneIndependent (and HandlesFollow, which TLC refutes on the conformant model exactly where the code does - D2) are checked by TLC over all re-key/move/clone histories from populated workspaces; every edge is executed for real with byte snapshots before/after: payload carried byte-identically, old id gone, all shallow copies follow (id, path, statepoint, cached_statepoint, document), DestinationExistsError and update_statepoint conflicts leave the disk untouched.",
+             note=WS_NOTE + "; move() modelled for handles without shallow copies", ref="5 C04"),
+ "C08": dict(technique=WS_TECH + "; every state observed twice (cache file present / hidden)",
+             text="TLC checks CacheSound, UpdateCacheExact, SecondCallNoop over all histories of {init, remove, re-key, update_cache, restart, delete cache, open} to the bound (and simulated to depth 40); every transition is replayed and after EVERY step the API view is taken in fresh sessions with the cache file in place and hidden - both must equal the raw workspace - and after update_cache the decoded gzip+JSON file must be exact and a second call a no-op (inode unchanged).",
+             note=WS_NOTE, ref="5 C08"),
+ "C09": dict(technique=WS_TECH + "; byte-level damage enumerated by the harness and classified into the model's damage kinds by an independent parse + canonical hash",
+             text="Damage kinds (file missing / unparseable / other valid JSON / directory renamed) are actions of the model; TLC explores their combinations on 2-3 jobs with and without cache together with check, repair, restart, open-by-id and checks NeverAcceptWrong, RepairFrame, RepairRestores; every edge is replayed and judged (check names exactly the damaged jobs, a fresh session never returns a state point hashing elsewhere, repair restores what the cache knows and never touches documents/data). Truncation at every byte offset and 7 substitution classes at every offset of 4 state point files are enumerated, classified independently and judged by the same post-conditions.",
+             note=WS_NOTE + "; Python's json is the independent parser for classification; listing order fixed to sorted during repair()", ref="5 C09", level="model_checking"),
+})
 def main():
     checks = []
     for pid, c in CHECKS.items():
